@@ -470,4 +470,147 @@ Proof.
       * apply (g_iters _ G).
       * apply (g_alive _ G).
 Qed.
+
+(* ---------- rm ---------- *)
+Lemma nth_error_free_cell : forall h id x, id <> x -> nth_error (free_cell h id) x = nth_error h x.
+Proof.
+  intros. unfold free_cell. destruct (nth_error h id); auto. rewrite nth_error_upd.
+  destruct (Nat.eqb id x) eqn:E; auto. apply Nat.eqb_eq in E. contradiction.
+Qed.
+Lemma free_cell_length : forall h id, length (free_cell h id) = length h.
+Proof. intros. unfold free_cell. destruct (nth_error h id); auto. apply upd_length. Qed.
+Lemma nth_error_store_other : forall h id n x, id <> x -> nth_error (store h id n) x = nth_error h x.
+Proof. intros. unfold store. rewrite nth_error_upd. destruct (Nat.eqb id x) eqn:E; auto. apply Nat.eqb_eq in E. contradiction. Qed.
+Lemma store_length : forall h id n, length (store h id n) = length h.
+Proof. intros. apply upd_length. Qed.
+
+Lemma remove_id_length : forall l x, NoDup l -> In x l -> S (length (remove_id x l)) = length l.
+Proof.
+  unfold remove_id. induction l; simpl; intros. contradiction. inversion H; subst. destruct H0.
+  - subst. rewrite Nat.eqb_refl. simpl. f_equal. rewrite filter_all_true; auto. apply forallb_forall. intros.
+    apply negb_true_iff. apply Nat.eqb_neq. intro. subst. contradiction.
+  - destruct (Nat.eqb a x) eqn:E. apply Nat.eqb_eq in E. subst. contradiction. simpl. f_equal. apply IHl; auto.
+Qed.
+
+Lemma nth_map_remove : forall (B : list (list nat)) id b, nth b (map (remove_id id) B) [] = remove_id id (nth b B []).
+Proof. intros. change (@nil nat) with (remove_id id []) at 1. apply map_nth. Qed.
+
+(* a heap that agrees with h everywhere except at id *)
+Definition agrees_except (h h' : heap) (id : nat) : Prop :=
+  length h' = length h /\ forall x, x <> id -> nth_error h' x = nth_error h x.
+
+Lemma good_remove : forall s id h', Good s -> In id (linked s) -> agrees_except (h_heap s) h' id ->
+  Good (set_count (set_heap (set_buckets s (map (remove_id id) (h_buckets s))) h') (wrap64 (h_count s - 1))) /\
+  map (ent h') (concat (map (remove_id id) (h_buckets s))) = del_entry (map (ent (h_heap s)) (linked s)) id.
+Proof.
+  intros s id h' G Hin [Hlen Hag].
+  assert (Hent : forall x, x <> id -> ent h' x = ent (h_heap s) x). { intros. unfold ent. rewrite Hag; auto. }
+  assert (Hder : forall x, x <> id -> deref h' x = deref (h_heap s) x). { intros. unfold deref. rewrite Hag; auto. }
+  assert (Hin' : forall x, In x (concat (map (remove_id id) (h_buckets s))) -> In x (linked s) /\ x <> id).
+  { intros. unfold remove_id in H. rewrite concat_filter in H. apply filter_In in H. destruct H. split; auto.
+    apply negb_true_iff in H0. apply Nat.eqb_neq in H0. auto. }
+  split.
+  - constructor; simpl.
+    + unfold nb. simpl. rewrite map_length. apply (g_nb _ G).
+    + unfold linked. simpl. unfold remove_id. rewrite concat_filter. apply NoDup_filter. apply (g_nodup _ G).
+    + intros b x Hx. unfold bucket in Hx. simpl in Hx. rewrite nth_map_remove in Hx. unfold remove_id in Hx. apply filter_In in Hx.
+      destruct Hx as [Hx1 Hx2]. apply negb_true_iff in Hx2. apply Nat.eqb_neq in Hx2.
+      destruct (g_node _ G b x Hx1) as [m M]. exists m. rewrite Hder by auto. unfold nb in *. simpl. rewrite map_length. auto.
+    + unfold linked. simpl. erewrite map_ext_in. 2:{ intros x Hx. apply Hin' in Hx. destruct Hx. rewrite Hent by auto. reflexivity. }
+      unfold remove_id. rewrite concat_filter. apply (nodup_map_filter (fun x => re_key (ent (h_heap s) x))). apply (g_keys _ G).
+    + rewrite (g_count _ G), wrap64_pred. f_equal. unfold linked. simpl. unfold remove_id at 1. rewrite concat_filter.
+      generalize (remove_id_length (linked s) id (g_nodup _ G) Hin). unfold remove_id, linked. lia.
+    + apply (g_iters _ G).
+    + apply (g_alive _ G).
+  - erewrite map_ext_in. 2:{ intros x Hx. apply Hin' in Hx. destruct Hx. apply Hent; auto. }
+    unfold remove_id. rewrite concat_filter. unfold del_entry, linked. rewrite filter_map_comm. f_equal.
+    apply filter_ext_in'. intros. rewrite ent_id. auto.
+Qed.
+
+Lemma step_rm : forall rc s k, Good s -> step_ok rc s (Rm k).
+Proof.
+  intros rc s k G. destruct rc as [[e1 e2] e3]. unfold step_ok, h_step, a_step. simpl. rewrite (g_alive _ G). simpl.
+  unfold h_rm, a_rm. destruct (lookup_abs s k G) as [L1 L2]. rewrite L1, L2. simpl.
+  destruct (find _ (linked s)) as [id|] eqn:F; simpl.
+  2:{ exists s, (OBool false), (OBool false), []. repeat split; auto. }
+  destruct (find_some_linked s k id G F) as [Hin [n [Q1 [Q2 [Q3 Q4]]]]]. rewrite Q1. simpl.
+  assert (Hlt : id < length (h_heap s)) by (eapply deref_lt; eauto).
+  unfold node_deref. simpl. rewrite deref_store by auto. rewrite Nat.eqb_refl. simpl. rewrite Q3. simpl.
+  match goal with |- context [free_cell ?h id] => set (h' := free_cell h id) end.
+  assert (AG : agrees_except (h_heap s) h' id).
+  { unfold h'. split. rewrite free_cell_length, !store_length. auto.
+    intros. rewrite nth_error_free_cell by auto. rewrite !nth_error_store_other by auto. auto. }
+  destruct (good_remove s id h' G Hin AG) as [G' E].
+  eexists _, (OBool true), (OBool true), _. split; [reflexivity|]. split; [|split; [reflexivity|split]].
+  - rewrite (deref_ent _ _ _ Q1). simpl. f_equal. f_equal.
+    unfold a_destroy_entry, abs, set_ents. simpl. unfold linked at 2. simpl. rewrite E. f_equal.
+    destruct AG as [AG _]. auto.
+  - unfold nb. simpl. apply map_length.
+  - left. exact G'.
+Qed.
+
+(* ---------- destroy ---------- *)
+Definition del_notifs (h : heap) (subs : list nsub) (id : nat) : list notif :=
+  match nth_error h id with
+  | Some c => notify_node (hn_subs (c_node c)) EV_DELETED (hn_key (c_node c)) (hn_val (c_node c)) 0%N ++
+              notify_global subs EV_DELETED (hn_key (c_node c)) (hn_val (c_node c)) 0%N
+  | None => []
+  end.
+
+Definition not_in (l : list nat) (x : nat) : bool := negb (existsb (Nat.eqb x) l).
+
+Lemma filter_filter_and : forall {A} (p q r : A -> bool) l, (forall x, r x = q x && p x) -> filter p (filter q l) = filter r l.
+Proof.
+  induction l; simpl; intros; auto. rewrite H. destruct (q a) eqn:Q; simpl; rewrite IHl; auto.
+Qed.
+
+Lemma destroy_nodes_ok : forall l s, NoDup l ->
+  (forall id, In id l -> exists n, deref (h_heap s) id = Ok n /\ hn_ref n = 1) ->
+  exists s', destroy_nodes s l = Ok (s', flat_map (del_notifs (h_heap s) (h_subs s)) l) /\
+    concat (h_buckets s') = filter (not_in l) (concat (h_buckets s)) /\
+    length (h_heap s') = length (h_heap s) /\ h_subs s' = h_subs s /\ h_used s' = h_used s /\
+    length (h_buckets s') = length (h_buckets s).
+Proof.
+  induction l; simpl; intros s ND Hall.
+  - exists s. repeat split; auto. rewrite filter_all_true; auto. apply forallb_forall. auto.
+  - inversion ND; subst. destruct (Hall a) as [n [Q1 Q2]]; auto.
+    assert (Hlt : a < length (h_heap s)) by (eapply deref_lt; eauto).
+    unfold node_deref. rewrite Q1. simpl. rewrite Q2. simpl.
+    match goal with |- context [destroy_nodes ?st l] => set (s1 := st) end.
+    assert (AG : forall x, x <> a -> nth_error (h_heap s1) x = nth_error (h_heap s) x).
+    { intros. unfold s1. simpl. rewrite nth_error_free_cell by auto. rewrite nth_error_store_other by auto. auto. }
+    destruct (IHl s1) as [s' [E1 [E2 [E3 [E4 [E5 E6]]]]]]; auto.
+    { intros id Hid. assert (id <> a) by (intro; subst; contradiction).
+      destruct (Hall id) as [m [M1 M2]]; auto. exists m. unfold deref. rewrite AG by auto. auto. }
+    exists s'. rewrite E1. simpl. split; [|split; [|split; [|split; [|split]]]].
+    + f_equal. f_equal. f_equal.
+      * unfold del_notifs, h_notify. simpl. apply deref_ok in Q1. destruct Q1 as [c [C1 [C2 C3]]]. rewrite C1, C3. reflexivity.
+      * apply flat_map_ext'. intros x Hx. unfold del_notifs. rewrite AG. reflexivity. intro; subst; contradiction.
+    + rewrite E2. unfold s1. simpl. unfold remove_id. rewrite concat_filter.
+      apply filter_filter_and. intros x. unfold not_in. simpl. rewrite negb_orb. reflexivity.
+    + rewrite E3. unfold s1. simpl. rewrite free_cell_length, store_length. auto.
+    + rewrite E4. reflexivity.
+    + rewrite E5. reflexivity.
+    + rewrite E6. unfold s1. simpl. apply map_length.
+Qed.
+
+Lemma step_destroy : forall rc s, Good s -> step_ok rc s Destroy.
+Proof.
+  intros rc s G. destruct rc as [[e1 e2] e3]. unfold step_ok, h_step, a_step. simpl. rewrite (g_alive _ G). simpl.
+  unfold h_destroy.
+  destruct (destroy_nodes_ok (concat (h_buckets s)) s (g_nodup _ G)) as [s' [E1 [E2 [E3 [E4 [E5 E6]]]]]].
+  { intros id Hid. destruct (good_linked s id G Hid) as [n [Q1 [Q2 _]]]. eauto. }
+  rewrite E1. simpl.
+  eexists _, ONone, ONone, _. split; [reflexivity|]. split; [|split; [reflexivity|split]].
+  - f_equal. f_equal.
+    + unfold abs. simpl. unfold linked. simpl. rewrite E2, E3, E5.
+      rewrite (filter_ext_in' _ (fun _ => false)). 2:{ intros x Hx. unfold not_in. apply negb_false_iff. apply existsb_exists. exists x. split; auto. apply Nat.eqb_refl. }
+      replace (filter (fun _ => false) (concat (h_buckets s))) with (@nil nat). reflexivity.
+      clear. induction (concat (h_buckets s)); simpl; auto.
+    + rewrite live_abs by auto. simpl. rewrite flat_map_map. apply flat_map_ext'. intros id Hid.
+      destruct (good_linked s id G Hid) as [n [Q1 _]]. unfold del_notifs, r_notify. rewrite (deref_ent _ _ _ Q1).
+      apply deref_ok in Q1. destruct Q1 as [c [C1 [C2 C3]]]. rewrite C1, C3. reflexivity.
+  - unfold nb. simpl. auto.
+  - right. reflexivity.
+Qed.
 End HR.
